@@ -1088,6 +1088,8 @@ fn determine_container_main_size(
                             if diff > 0.0 {
                                 diff / f32_max(1.0, item.flex_grow)
                             } else if diff < 0.0 {
+                                #[cfg(taffy_verif)]
+                                crate::verif_hooks::note_shrink_floor(item.flex_shrink, item.inner_flex_basis);
                                 let scaled_shrink_factor = f32_max(1.0, item.flex_shrink * item.inner_flex_basis);
                                 diff / scaled_shrink_factor
                             } else {
